@@ -122,6 +122,52 @@ fn c19_window_two_writes() {
 /// key list with symbolic presence and bytes, sender index ANY u32:
 /// Ok  =>  the key recorded for that index in the old epoch equals the key at that leaf now
 /// (so a vacated or re-keyed leaf is refused whenever the old epoch had a member there).
+/// Same check when the tree has SHRUNK since the old epoch (fewer leaf slots now than keys recorded
+/// then): a sender whose leaf no longer exists must be refused.
+fn shrunk_case<const SLOTS: usize>() {
+    let (nodes, shape) = sym_nodes::<SLOTS>(0);
+    let tree = tree_from_nodes(nodes);
+    let mut old: Vec<Option<SignaturePublicKey>> = Vec::with_capacity(4);
+    let mut old_present = [false; 4];
+    let mut old_key = [0u8; 4];
+    let mut i = 0;
+    while i < 4 {
+        let p: bool = kani::any();
+        let k: u8 = kani::any();
+        old_present[i] = p;
+        old_key[i] = k;
+        old.push(if p { Some(SignaturePublicKey::from(one(k))) } else { None });
+        i += 1;
+    }
+    let leaves_now = (SLOTS + 1) / 2;
+    // concrete sender positions (one symbolic index into the old list is fine, see the 7-slot harness;
+    // here every position 0..4 is visited explicitly)
+    let mut s = 0usize;
+    while s < 4 {
+        let r = validate_sender_signature_key_from_prior_epoch(&tree, &old, &Sender::Member(s as u32));
+        let now_occ = s < leaves_now && shape.occupied[if s < leaves_now { 2 * s } else { 0 }];
+        let same = old_present[s] == now_occ && (!old_present[s] || old_key[s] == shape.sig[if s < leaves_now { 2 * s } else { 0 }]);
+        match r {
+            Ok(()) => assert!(same, "sender whose leaf is gone / vacated / re-keyed was accepted"),
+            Err(e) => {
+                assert!(!same, "the original sender is still in place, yet refused");
+                forget(e);
+            }
+        }
+        s += 1;
+    }
+    kani::cover!(old_present[3], "old epoch had a member beyond the current tree");
+    forget(old);
+    forget(tree);
+    kani::cover!(true);
+}
+#[kani::proof]
+#[kani::unwind(9)]
+fn c19_prior_epoch_sender_key_shrunk_to_3_leaves() { shrunk_case::<5>(); }
+#[kani::proof]
+#[kani::unwind(9)]
+fn c19_prior_epoch_sender_key_shrunk_to_2_leaves() { shrunk_case::<3>(); }
+
 #[kani::proof]
 #[kani::unwind(9)]
 fn c19_prior_epoch_sender_key() {
